@@ -75,6 +75,7 @@ where
     config.silence_warnings = true;
     adlt_verif_seam::clock::reset(cfg.tick_ns);
     adlt_verif_seam::knobs::set_sync_channel_caps(cfg.caps.clone());
+    adlt_verif_seam::trace::reset();
     let t0 = adlt_verif_seam::clock::now_ns();
     let kind = cfg.kind.clone();
     let seed = cfg.seed;
@@ -91,6 +92,12 @@ where
     });
     ctx.sim_time((adlt_verif_seam::clock::now_ns() - t0) as u128);
     ctx.take_seam_probes();
+    let (th, tn, tasks) = adlt_verif_seam::trace::get();
+    if tn > 0 && tasks > 1 {
+        // interleaving signature of this execution (several executions per run are combined)
+        ctx.sched = Some(ctx.sched.unwrap_or(0).rotate_left(17) ^ th);
+        ctx.probe_n("seam_operations", tn);
+    }
     let _ = LAST_PANIC_SLOT.lock().map(|mut g| g.take());
     let _ = classify_panic;
     r.map(|_| ())
